@@ -39,6 +39,7 @@ partial def loop (h : IO.FS.Stream) (fixed : Bool) (s : BSt) : IO Unit := do
   | ["add", n, l] => fin (insertion fixed s n.toNat! l.toNat!)
   | ["rm", n, l] => fin (deletion fixed s n.toNat! l.toNat!)
   | ["mod", n, o, nw, sc] => fin (modification fixed s n.toNat! o.toNat! nw.toNat! (parseScript sc))
+  | ["ren", src, n, o, nw, sc] => fin (renamed fixed s src.toNat! n.toNat! o.toNat! nw.toNat! (parseScript sc))
   | ["obs"] => IO.println (obs s); loop h fixed s
   | _ => IO.println "bad-op"; loop h fixed s
 
